@@ -228,9 +228,44 @@ func c13Run(c c13Case) Verdict {
 	interlude(len(c.Rcpts))
 	out, st := w.Exchange(pre.buf)
 	prs, err := harness.ParseReplies(out)
+	// A server may also treat a BDAT it refuses as the end of the
+	// transaction (RFC 3030 section 2 lets the sender consider it failed):
+	// when the backend was told so by Reset after the judged MAIL, whatever
+	// follows is refused for want of a MAIL and there is nothing to attribute.
+	endedByRefusedBdat := func() bool {
+		withBdat := false
+		for _, k := range c.Interludes {
+			if k == 4 || k == 5 {
+				withBdat = true
+			}
+		}
+		if !withBdat {
+			return false
+		}
+		seenMail := false
+		for _, e := range r.B.Events() {
+			if e.CB == "Mail" && e.Begin && e.From == "s@x" {
+				seenMail = true
+			}
+			if seenMail && e.CB == "Reset" {
+				return true
+			}
+		}
+		return false
+	}
+	if st == harness.QIdle && err == nil && matchReplies(prs, pre.exp) != "" && endedByRefusedBdat() {
+		w.Finish()
+		return Verdict{Classes: []string{"unspecified_refused_bdat_ended_transaction"}}
+	}
 	if st != harness.QIdle || err != nil || matchReplies(prs, pre.exp) != "" {
 		w.Finish()
 		return Verdict{Inconclusive: fmt.Sprintf("envelope: %s %v %s", st, err, matchReplies(prs, pre.exp))}
+	}
+	if endedByRefusedBdat() {
+		// (the refused BDAT came last: the envelope went through, the
+		// transaction is gone all the same)
+		w.Finish()
+		return Verdict{Classes: []string{"unspecified_refused_bdat_ended_transaction"}}
 	}
 	msg := "Subject: x\r\n\r\nhello\r\n"
 	var body []byte
